@@ -30,6 +30,8 @@ func runStream(name string, args []string) {
 		streamRb(o)
 	case "nl":
 		streamNl(o)
+	case "sc":
+		streamSc(o)
 	case "reg":
 		streamReg(o)
 	case "cb":
